@@ -258,7 +258,7 @@ package cose
 
 //@ func deterministicBinaryString
 //@   ensures iff [C02, C07, C10]: err == nil <==> (len(data) > 0 && b_major(bytes(data)) == 2 && bstr_wf(bytes(data)))
-//@   ensures canon [C02, C07, C10]: err == nil ==> bytes(result) == canon(bytes(data)) && len(result) > 0
+//@   ensures canon [C02, C07, C08, C10]: err == nil ==> bytes(result) == canon(bytes(data)) && len(result) > 0
 //@   ensures fast_iff_minimal [C02, C07, C18]: err == nil ==> (head_minimal(bytes(data)) ==> result == data) && (!head_minimal(bytes(data)) ==> fresh(result))
 //@   ensures err_nil: err != nil ==> result == nil
 //@   modifies frame [C09, C18]: nothing
@@ -322,15 +322,15 @@ package cose
 
 //@ func (*Sign1Message).toBeSigned
 //@   requires nonnil: m != nil
-//@   ensures err_iff [C01, C07]: err == nil <==> old(tbsOK(m.Headers))
-//@   ensures fun [C01, C02, C03, C04, C07, C20]: err == nil ==> bytes(result) == old(Sig1(ProtBytes(m.Headers), external, m.Payload)) && fresh(result)
+//@   ensures err_iff [C01, C03, C07]: err == nil <==> old(tbsOK(m.Headers))
+//@   ensures fun [C01, C02, C03, C04, C07, C08, C20]: err == nil ==> bytes(result) == old(Sig1(ProtBytes(m.Headers), external, m.Payload)) && fresh(result)
 //@   ensures err_nil: err != nil ==> result == nil
 //@   modifies frame [C09, C18]: nothing
 
 //@ func (*Signature).toBeSigned
 //@   requires nonnil: s != nil
-//@   ensures err_iff [C01, C07]: err == nil <==> old(tbsOK(s.Headers) && len(bodyProtected) > 0 && b_major(bytes(bodyProtected)) == 2 && bstr_wf(bytes(bodyProtected)))
-//@   ensures fun [C01, C02, C03, C04, C07, C11, C20]: err == nil ==> bytes(result) == old(SigN(bytes(bodyProtected), ProtBytes(s.Headers), external, payload)) && fresh(result)
+//@   ensures err_iff [C01, C03, C07]: err == nil <==> old(tbsOK(s.Headers) && len(bodyProtected) > 0 && b_major(bytes(bodyProtected)) == 2 && bstr_wf(bytes(bodyProtected)))
+//@   ensures fun [C01, C02, C03, C04, C07, C08, C11, C20]: err == nil ==> bytes(result) == old(SigN(bytes(bodyProtected), ProtBytes(s.Headers), external, payload)) && fresh(result)
 //@   ensures err_nil: err != nil ==> result == nil
 //@   modifies frame [C09, C18]: nothing
 
@@ -406,11 +406,11 @@ package cose
 //@   ensures verbatim [C01, C02, C03, C06, C12, C20]: vepoch() == old(vepoch()) + 1 ==> m != nil
 //@         && result == verifier_verify(verifier, old(Sig1(ProtBytes(m.Headers), external, m.Payload)), old(bytes(m.Signature)))
 //@   ensures gate [C01, C04, C06]: m != nil && vepoch() != old(vepoch())
-//@         ==> (algPresent(m.Headers.Protected) ==> algAgrees(m.Headers.Protected, verifier_alg(verifier))) && (algPresent(m.Headers.Protected) || len(external) > 0)
+//@         ==> old((algPresent(m.Headers.Protected) ==> algAgrees(m.Headers.Protected, verifier_alg(verifier))) && (algPresent(m.Headers.Protected) || len(external) > 0))
 //@   ensures mismatch [C01, C04, C06]: m != nil && m.Payload != nil && len(m.Signature) > 0 && uniqueLabels(asmap(m.Headers.Protected)) && algIntMismatch(m.Headers.Protected, verifier_alg(verifier))
 //@         ==> result != nil && Is(result, ErrAlgorithmMismatch)
 //@   ensures precheck [C01, C03, C06, C12]: (m == nil || m.Payload == nil || len(m.Signature) == 0) ==> result != nil && vepoch() == old(vepoch())
-//@   ensures complete [C01, C07, C12]: m != nil && m.Payload != nil && len(m.Signature) > 0 && old(uniqueLabels(asmap(m.Headers.Protected)))
+//@   ensures complete [C01, C03, C07, C12]: m != nil && m.Payload != nil && len(m.Signature) > 0 && old(uniqueLabels(asmap(m.Headers.Protected)))
 //@         && old((algPresent(m.Headers.Protected) ==> algAgrees(m.Headers.Protected, verifier_alg(verifier))) && (algPresent(m.Headers.Protected) || len(external) > 0))
 //@         && old(tbsOK(m.Headers)) ==> vepoch() == old(vepoch()) + 1
 //@   modifies frame [C01, C06, C09, C18]: nothing
@@ -448,11 +448,11 @@ package cose
 //@   ensures verbatim [C01, C02, C03, C11, C20]: vepoch() == old(vepoch()) + 1 ==> s != nil
 //@         && result == verifier_verify(verifier, old(SigN(bytes(protected), ProtBytes(s.Headers), external, payload)), old(bytes(s.Signature)))
 //@   ensures gate [C01, C04]: s != nil && vepoch() != old(vepoch())
-//@         ==> (algPresent(s.Headers.Protected) ==> algAgrees(s.Headers.Protected, verifier_alg(verifier))) && (algPresent(s.Headers.Protected) || len(external) > 0)
+//@         ==> old((algPresent(s.Headers.Protected) ==> algAgrees(s.Headers.Protected, verifier_alg(verifier))) && (algPresent(s.Headers.Protected) || len(external) > 0))
 //@   ensures mismatch [C01, C04]: s != nil && payload != nil && len(s.Signature) > 0 && bodyOK(protected) && uniqueLabels(asmap(s.Headers.Protected)) && algIntMismatch(s.Headers.Protected, verifier_alg(verifier))
 //@         ==> result != nil && Is(result, ErrAlgorithmMismatch)
 //@   ensures precheck [C01, C03, C11]: (s == nil || payload == nil || len(s.Signature) == 0 || !bodyOK(protected)) ==> result != nil && vepoch() == old(vepoch())
-//@   ensures complete [C01, C07]: s != nil && payload != nil && len(s.Signature) > 0 && bodyOK(protected) && bstr_wf(bytes(protected)) && old(uniqueLabels(asmap(s.Headers.Protected)))
+//@   ensures complete [C01, C03, C07]: s != nil && payload != nil && len(s.Signature) > 0 && bodyOK(protected) && bstr_wf(bytes(protected)) && old(uniqueLabels(asmap(s.Headers.Protected)))
 //@         && old((algPresent(s.Headers.Protected) ==> algAgrees(s.Headers.Protected, verifier_alg(verifier))) && (algPresent(s.Headers.Protected) || len(external) > 0))
 //@         && old(tbsOK(s.Headers)) ==> vepoch() == old(vepoch()) + 1
 //@   modifies frame [C01, C09, C18]: nothing
@@ -513,7 +513,7 @@ package cose
 //@   ensures err_slots [C01, C04, C06, C11, C20]: m != nil && err != nil ==> epoch() - old(epoch()) <= len(m.Signatures)
 //@         && (forall j Int :: epoch() - old(epoch()) <= j && j < len(m.Signatures) && m.Signatures[j] != nil ==> m.Signatures[j].Signature == old(m.Signatures[j].Signature))
 //@   callsite positional [C01, C04, C06, C11] (*Signature).Sign#1: arg0 == m.Signatures[idx] && arg2 == signers[idx] && arg4 == m.Payload && arg5 == external && arg3 == protected
-//@   callsite body_protected [C01, C02, C04, C06, C11] (*Headers).MarshalProtected#1: arg0 == &m.Headers
+//@   callsite body_protected [C01, C02, C04, C06, C11] (*Signature).Sign#1: bytes(arg3) == entry(ProtBytes(m.Headers))
 //@   modifies frame [C01, C04, C06, C18]: anything
 
 // ===================================================================
@@ -895,26 +895,26 @@ package cose
 //@   decreases ptr_then_value [C06]: (target is *Sign1Message || target is *SignMessage || target is *Signature || target is *Countersignature) ? 1 : 0
 //@   requires ptr_nonnil: (target is *Sign1Message ==> target.(*Sign1Message) != nil) && (target is *SignMessage ==> target.(*SignMessage) != nil)
 //@         && (target is *Signature ==> target.(*Signature) != nil) && (target is *Countersignature ==> target.(*Countersignature) != nil)
-//@   ensures sign1_val [C03, C07, C10]: target is Sign1Message && err == nil ==> len(target.(Sign1Message).Signature) > 0 && target.(Sign1Message).Payload != nil
+//@   ensures sign1_val [C03, C07, C08, C10]: target is Sign1Message && err == nil ==> len(target.(Sign1Message).Signature) > 0 && target.(Sign1Message).Payload != nil
 //@         && bytes(result) == old(tbsSign1(abbreviated, target.(Sign1Message).Headers, target.(Sign1Message).Payload, target.(Sign1Message).Signature, signProtected, external))
-//@   ensures sign1_ptr [C03, C07, C10]: target is *Sign1Message && err == nil ==> len(target.(*Sign1Message).Signature) > 0 && target.(*Sign1Message).Payload != nil
+//@   ensures sign1_ptr [C03, C07, C08, C10]: target is *Sign1Message && err == nil ==> len(target.(*Sign1Message).Signature) > 0 && target.(*Sign1Message).Payload != nil
 //@         && bytes(result) == old(tbsSign1(abbreviated, target.(*Sign1Message).Headers, target.(*Sign1Message).Payload, target.(*Sign1Message).Signature, signProtected, external))
-//@   ensures sign_val [C03, C07, C10]: target is SignMessage && err == nil ==> len(target.(SignMessage).Signatures) > 0 && target.(SignMessage).Payload != nil
+//@   ensures sign_val [C03, C07, C08, C10]: target is SignMessage && err == nil ==> len(target.(SignMessage).Signatures) > 0 && target.(SignMessage).Payload != nil
 //@         && bytes(result) == old(tbsPlain(abbreviated, target.(SignMessage).Headers, target.(SignMessage).Payload, signProtected, external))
-//@   ensures sign_ptr [C03, C07, C10]: target is *SignMessage && err == nil ==> len(target.(*SignMessage).Signatures) > 0 && target.(*SignMessage).Payload != nil
+//@   ensures sign_ptr [C03, C07, C08, C10]: target is *SignMessage && err == nil ==> len(target.(*SignMessage).Signatures) > 0 && target.(*SignMessage).Payload != nil
 //@         && bytes(result) == old(tbsPlain(abbreviated, target.(*SignMessage).Headers, target.(*SignMessage).Payload, signProtected, external))
-//@   ensures sig_val [C03, C07, C10]: target is Signature && err == nil ==> len(target.(Signature).Signature) > 0
+//@   ensures sig_val [C03, C07, C08, C10]: target is Signature && err == nil ==> len(target.(Signature).Signature) > 0
 //@         && bytes(result) == old(tbsPlain(abbreviated, target.(Signature).Headers, target.(Signature).Signature, signProtected, external))
-//@   ensures sig_ptr [C03, C07, C10]: target is *Signature && err == nil ==> len(target.(*Signature).Signature) > 0
+//@   ensures sig_ptr [C03, C07, C08, C10]: target is *Signature && err == nil ==> len(target.(*Signature).Signature) > 0
 //@         && bytes(result) == old(tbsPlain(abbreviated, target.(*Signature).Headers, target.(*Signature).Signature, signProtected, external))
-//@   ensures csig_val [C03, C07, C10]: target is Countersignature && err == nil ==> len(target.(Countersignature).Signature) > 0
+//@   ensures csig_val [C03, C07, C08, C10]: target is Countersignature && err == nil ==> len(target.(Countersignature).Signature) > 0
 //@         && bytes(result) == old(tbsPlain(abbreviated, target.(Countersignature).Headers, target.(Countersignature).Signature, signProtected, external))
-//@   ensures csig_ptr [C03, C07, C10]: target is *Countersignature && err == nil ==> len(target.(*Countersignature).Signature) > 0
+//@   ensures csig_ptr [C03, C07, C08, C10]: target is *Countersignature && err == nil ==> len(target.(*Countersignature).Signature) > 0
 //@         && bytes(result) == old(tbsPlain(abbreviated, target.(*Countersignature).Headers, target.(*Countersignature).Signature, signProtected, external))
-//@   ensures refuse_other [C03, C07, C10]: !(target is Sign1Message || target is *Sign1Message || target is SignMessage || target is *SignMessage
+//@   ensures refuse_other [C03, C07, C08, C10]: !(target is Sign1Message || target is *Sign1Message || target is SignMessage || target is *SignMessage
 //@         || target is Signature || target is *Signature || target is Countersignature || target is *Countersignature) ==> err != nil
-//@   ensures out [C03, C07, C10, C20]: (err == nil ==> fresh(result) && len(result) > 0) && (err != nil ==> result == nil)
-//@   modifies frame [C03, C07, C09, C18]: nothing
+//@   ensures out [C03, C07, C08, C10, C20]: (err == nil ==> fresh(result) && len(result) > 0) && (err != nil ==> result == nil)
+//@   modifies frame [C03, C07, C08, C09, C18]: nothing
 
 // the value that reaches the signer / verifier for parent `parent` (any of the eight supported spellings)
 //@ spec parentOK(parent any) Bool = (parent is *Sign1Message ==> parent.(*Sign1Message) != nil) && (parent is *SignMessage ==> parent.(*SignMessage) != nil)
@@ -937,7 +937,7 @@ package cose
 //@   ensures sound [C01, C03, C10, C20]: result == nil ==> s != nil && len(s.Signature) > 0 && isParent(parent) && vepoch() == old(vepoch()) + 1
 //@   ensures verbatim [C01, C03, C10, C20]: vepoch() == old(vepoch()) + 1 ==> s != nil && isParent(parent)
 //@         && result == verifier_verify(verifier, old(tbsFor(false, parent, ProtBytes(s.Headers), external)), old(bytes(s.Signature)))
-//@   ensures gate [C01, C04]: s != nil && vepoch() != old(vepoch()) ==> (algPresent(s.Headers.Protected) ==> algAgrees(s.Headers.Protected, verifier_alg(verifier))) && (algPresent(s.Headers.Protected) || len(external) > 0)
+//@   ensures gate [C01, C04]: s != nil && vepoch() != old(vepoch()) ==> old((algPresent(s.Headers.Protected) ==> algAgrees(s.Headers.Protected, verifier_alg(verifier))) && (algPresent(s.Headers.Protected) || len(external) > 0))
 //@   ensures precheck [C01, C03, C10]: (s == nil || len(s.Signature) == 0 || !isParent(parent)) ==> result != nil && vepoch() == old(vepoch())
 //@   modifies frame [C01, C09, C18]: nothing
 
@@ -997,13 +997,13 @@ package cose
 
 //@ func setHashEnvelopeProtectedHeader
 //@   requires nonnil: payload != nil
-//@   ensures fresh_map [C06, C12, C18]: result != nil && fresh(result)
-//@   ensures dom [C06, C12]: forall k any :: (k in asmap(result)) <==> (k in asmap(base) || k == int64(258) || (k == int64(259) && payload.PreimageContentType != nil) || (k == int64(260) && payload.Location != ""))
-//@   ensures vals [C06, C12]: asmap(result)[int64(258)] == Algorithm(payload.HashAlgorithm)
+//@   ensures fresh_map [C06, C08, C12, C18]: result != nil && fresh(result)
+//@   ensures dom [C06, C08, C12]: forall k any :: (k in asmap(result)) <==> (k in asmap(base) || k == int64(258) || (k == int64(259) && payload.PreimageContentType != nil) || (k == int64(260) && payload.Location != ""))
+//@   ensures vals [C06, C08, C12]: asmap(result)[int64(258)] == Algorithm(payload.HashAlgorithm)
 //@         && (payload.PreimageContentType != nil ==> asmap(result)[int64(259)] == payload.PreimageContentType)
 //@         && (payload.Location != "" ==> asmap(result)[int64(260)] == payload.Location)
 //@         && (forall k any :: k in asmap(base) && k != int64(258) && k != int64(259) && k != int64(260) ==> asmap(result)[k] == asmap(base)[k])
-//@   modifies frame [C06, C12, C18]: nothing
+//@   modifies frame [C06, C08, C12, C18]: nothing
 
 //@ func validateHashEnvelopeHeaders
 //@   requires nonnil: headers != nil
@@ -1327,7 +1327,7 @@ package cose
 //@ func (*Countersignature).toBeSigned
 //@   requires ok: s != nil && parentOK(target)
 //@   ensures out [C10, C20]: (err == nil ==> fresh(result) && len(result) > 0 && isParent(target)) && (err != nil ==> result == nil)
-//@   ensures fun [C03, C07, C10]: err == nil ==> bytes(result) == old(tbsFor(false, target, ProtBytes(s.Headers), external))
+//@   ensures fun [C03, C07, C08, C10]: err == nil ==> bytes(result) == old(tbsFor(false, target, ProtBytes(s.Headers), external))
 //@   modifies frame [C09, C18]: nothing
 
 //@ func (*Key).ParamBytes
